@@ -7,7 +7,7 @@ OBS = []
 DEC = {9: [('1e5', '1e6', 'thorough'), ('1e6', '1e7', 'quick')], 6: [('1e3', '1e4', 'thorough'), ('1e4', '1e5', 'quick'), ('1e5', '1e6', 'quick'), ('1e6', '1e7', 'quick')]}
 for pl in (9, 6):
     for lo, hi, tier in DEC[pl]:
-        OBS.append(Ob(['C12', 'C02'], 'decomp_p%d_%s' % (pl, lo.replace('.', '_').replace('-', 'm')), 'fp', 'harness/fp.c', 'h_decomp', defs=['PLACES=%d' % pl, 'LO=%s' % lo, 'HI=%s' % hi], unwind=12, cap=900, tier=tier,
+        OBS.append(Ob(['C12', 'C02'], 'decomp_p%d_%s' % (pl, lo.replace('.', '_').replace('-', 'm')), 'fp', 'harness/fp.c', 'h_decomp', defs=['PLACES=%d' % pl, 'LO=%s' % lo, 'HI=%s' % hi], unwind=12, cap=(900 if tier == 'quick' else 3000), tier=tier,
             desc='decomposeFloat(x,%d): integral.decimal within %s*max(1,x) of x, digits fit decimalPlaces, no trailing zero' % (pl, '1e-9' if pl == 9 else '1e-6'), bound='all doubles in [%s,%s); normalize() cut (not needed in this range)' % (lo, hi)))
 K = dict(unwind=12, cap=900, fs=4096, objbits=12, hunwind=12)
 OBS.append(Ob(['C12', 'C02'], 'ser_f64_1e6', 'fp', 'harness/fp.c', 'h_ser_f64', defs=['LO=1e6', 'HI=1e7', 'FLOATREP=0'], desc='doc.set(double x); serializeJson: digits handed to the digit writers are within 1e-9*x of x (x not exactly a float)', bound='all doubles in [1e6,1e7) that are not exactly representable as float; digit writers and normalize() cut', **K))
